@@ -60,7 +60,8 @@ TypeOK == /\ \A n \in xm : W(n) < xw
 
 First(s, k) == SubSeq(s, 1, IF Len(s) < k THEN Len(s) ELSE k)
 \* the public observation: cardinality and the three enumerations of X, and Y (to see that it is left alone)
-O == [len |-> Cardinality(xm), iter |-> Sorted(xm), range2 |-> First(Sorted(xm), 2), all |-> Sorted(xm),
+\* (iterpair: two iterators alive at once, advanced alternately - each yields the whole set)
+O == [len |-> Cardinality(xm), iter |-> Sorted(xm), iterpair |-> <<Sorted(xm), Sorted(xm)>>, range2 |-> First(Sorted(xm), 2), all |-> Sorted(xm),
       ylen |-> Cardinality(ym), yiter |-> Sorted(ym)]
 View == <<xm, xw, ym, yw>>
 St == [s |-> [xcap |-> 64 * xw, ycap |-> 64 * yw, x |-> Sorted(xm), y |-> Sorted(ym)], o |-> O, d |-> Sorted(xm)]
